@@ -76,7 +76,7 @@ def check_edit(case):
     return out
 
 
-def judge(H, net):
+def _judge(H, net):
     from synkit.CRN.Petri.structure import find_siphons, find_traps
     from synkit.CRN.Petri.analyzer import PetriAnalyzer
     from synkit.CRN.Petri.net import PetriNet
@@ -286,6 +286,17 @@ def _setup_quick():
 def _setup_thorough():
     global FLOWMAX
     FLOWMAX = 3
+
+
+def judge(H, net):
+    """analysis must not change the network it analyses"""
+    from mc.checks.c15 import snap
+
+    before = snap(H)
+    out = _judge(H, net)
+    if snap(H) != before:
+        out.fails.append(Fail("analysis_mutates_network", "the network object changed while it was analysed", "unchanged"))
+    return out
 
 
 def subchecks(tier, seed):
